@@ -97,6 +97,8 @@ class Collector:
                 self.extra[k] += v
             elif isinstance(v, dict) and isinstance(self.extra.get(k), dict):
                 self.extra[k].update(v)
+            elif isinstance(v, list) and isinstance(self.extra.get(k), list):
+                self.extra[k] = (self.extra[k] + v)[:4]
             else:
                 self.extra.setdefault(k, v)
 
@@ -388,6 +390,8 @@ def main(argv=None) -> int:
     aborted = {k: v for k, v in total.classes.items() if k.startswith("aborted:")}
     if aborted:
         print(f"note: walks abandoned by a hand-over rule / time limit (counted, not a verdict): {aborted}")
+        for smp in total.extra.get("aborted_samples", [])[:2]:
+            print(f"  e.g. {smp}")
     for line in known_lines:
         print(line)
     for bucket, message, path in violations:
